@@ -4,6 +4,7 @@ import (
 	"fmt"
 
 	"github.com/karagenc/socket.io-go/internal/sync"
+	"github.com/karagenc/socket.io-go/internal/verifhook"
 
 	mapset "github.com/deckarep/golang-set/v2"
 	"github.com/karagenc/socket.io-go/parser"
@@ -192,6 +193,7 @@ func (a *inMemoryAdapter) apply(opts *BroadcastOptions, callback func(socket Soc
 				socket, ok := a.sockets.Get(sid)
 				if ok {
 					a.mu.Unlock()
+					verifhook.Point("inMemoryAdapter.apply:unlocked")
 					callback(socket)
 					a.mu.Lock()
 					ids.Add(sid)
@@ -208,6 +210,7 @@ func (a *inMemoryAdapter) apply(opts *BroadcastOptions, callback func(socket Soc
 			socket, ok := a.sockets.Get(sid)
 			if ok {
 				a.mu.Unlock()
+				verifhook.Point("inMemoryAdapter.apply:unlocked")
 				callback(socket)
 				a.mu.Lock()
 			}
